@@ -350,7 +350,7 @@ fn probe<L: LayoutTrait>(h: &Honest, rng: &mut Rng, rep: &mut Report, thorough: 
     let mut vedits: Vec<(String, PublicInput)> = vec![];
     let cells: Vec<usize> = if thorough || n <= 64 { (0..n).collect() } else { let mut v: Vec<usize> = (0..n).collect(); rng.shuffle(&mut v); v.truncate(64); v };
     for &i in &cells {
-        for (l, d) in [("+1", Felt::ONE), ("-1", Felt::ZERO - Felt::ONE), ("+0x1000", Felt::from(0x1000u64))] {
+        for (l, d) in [("+1", Felt::ONE), ("-1", Felt::ZERO - Felt::ONE), ("+0x1000", Felt::from(0x1000u64)), ("+2^64", Felt::from(1u128 << 64)), ("+3*2^64", Felt::from(3u128 << 64)), ("+2^128", Felt::from(u128::MAX) + Felt::ONE), ("+2^32", Felt::from(1u64 << 32))] {
             let mut p = clone_pi(pi0);
             p.main_page.0[i].address += d;
             vedits.push((format!("cell {i} address {l}"), p));
@@ -390,6 +390,15 @@ fn probe<L: LayoutTrait>(h: &Honest, rng: &mut Rng, rep: &mut Report, thorough: 
                 }
                 vedits.push((format!("{name} {which} {}", if d == Felt::ONE { "+1".to_string() } else if d == Felt::ZERO - Felt::ONE { "-1".to_string() } else { format!("+{}", hex(&d)) }), p));
             }
+        }
+    }
+    // a segment moved as a whole (begin and stop by the same amount) over an untouched page
+    for (segi, name) in [(0usize, "program"), (1, "execution"), (2, "output")] {
+        for (l, d) in [("+1", Felt::ONE), ("-1", Felt::ZERO - Felt::ONE), ("+7", Felt::from(7u64)), ("+0x1000", Felt::from(0x1000u64)), ("+2^32", Felt::from(1u64 << 32)), ("+2^64", Felt::from(1u128 << 64)), ("+2^128", Felt::from(u128::MAX) + Felt::ONE)] {
+            let mut p = clone_pi(pi0);
+            p.segments[segi].begin_addr += d;
+            p.segments[segi].stop_ptr += d;
+            vedits.push((format!("{name} segment moved by {l}"), p));
         }
     }
     {
